@@ -296,3 +296,5 @@ package twig
 //@ list order_insert_calls (*RenderContext).SetVariable:1
 // the string form of the keys of one map is assumed injective (merge of maps with mixed key types)
 //@ list order_injective_keys toString
+//@ func sortedMapKeys props: C05 C03
+//@   requires ufi_kind(rv) == 21
